@@ -189,6 +189,18 @@ def held_lock_scenarios(run):
                                     "store": {"kind": kind, "disc": "full", "empty_is_err": False, "content": base},
                                     "user": {"verif_enabled": True, "presence_enabled": True, "script": [{"presence": True, "verification": True}]},
                                     "ceremonies": [op], "schedule": [0] * (n + 3), "hold": {"kind": hold, "from": frm, "to": to}, "held_tag": tag})
+    # a shared store of fixed capacity that is exactly full: a registration is REFUSED by the store (KeyStoreFull) inside the lock
+    # wrapper while another authenticator on the same Arc asserts - the refusal is reported, nobody waits for ever
+    reg = {"op": "make_credential", "req": mc_req(rng, rk=True)}
+    asr = {"op": "get_assertion", "req": ga_req(rng, allow=[cid])}
+    n_reg, n_asr = polls_of(reg), polls_of(asr)
+    for kind in ("arc_rwlock_ref", "arc_mutex_ref"):
+        for sched in ([0] * (n_reg + 2) + [1] * (n_asr + 2), [1] * (n_asr + 2) + [0] * (n_reg + 2), [0, 1] * (n_reg + n_asr + 2),
+                      [0] * max(1, n_reg - 1) + [1] * (n_asr + 2) + [0] * 4, [1] * max(1, n_asr - 1) + [0] * (n_reg + 2) + [1] * 4):
+            scs.append({"mode": "concurrent", "config": {"aaguid": "00" * 16, "counter": True, "id_len": 16, "hmac": None},
+                        "store": {"kind": kind, "disc": "full", "empty_is_err": False, "content": base, "capacity": len(base)},
+                        "user": {"verif_enabled": True, "presence_enabled": True, "script": [{"presence": True, "verification": True}]},
+                        "ceremonies": [reg, asr], "schedule": sched, "held_tag": "full-store"})
     return scs
 
 
@@ -198,12 +210,23 @@ def judge_held(sc, out):
     if "results" not in out:
         return [("crash", "the worker crashed: %s" % json.dumps(out)[:200])]
     if out["deadlock"] or any(r is None for r in out["results"]):
+        if sc.get("held_tag") == "full-store":
+            return [("C19", "deadlock: a registration that the (full) store refused inside its lock wrapper never returned, or blocked the ceremony beside it")]
         return [("C19", "deadlock: the ceremony never finished after the other holder released the store's lock")]
     res = out["results"][0]
     cid = sc["store"]["content"][0]["cred_id"]
     before = sc["store"]["content"]
     after = out["store_after"]
     tag = sc["held_tag"]
+    if tag == "full-store":
+        asr = out["results"][1]
+        if res.get("err") != 0x28:
+            fails.append(("C07", "a registration on a full store (the store answers KeyStoreFull to the save) returned %s" % json.dumps(res)[:80]))
+        if len(after) != len(before):
+            fails.append(("C07", "a registration the store refused changed the number of stored credentials"))
+        if "ok" not in asr:
+            fails.append(("C19", "an assertion running beside a refused registration failed: %s" % json.dumps(asr)[:80]))
+        return fails
     stored = next((p for p in after if p["cred_id"] == cid), None)
     if stored is None:
         fails.append(("C19", "the credential the store held is gone"))
